@@ -219,12 +219,13 @@ impl SystemController {
             self.arbiters.wf(),
             self.arbiters.order() == ord0,
             self.arbiters@.dom() == pre_map.dom(),
-            self.stop_tx.is_some() == pre_tx,
+            self.stop_tx.is_some() == tx0_some,
             self.cmd_rx == rx0,
             forall|j: int| 0 <= j < r9_n ==> (#[trigger] self.arbiters@[ord0[j]]).stop_requested(),
 //@insert before="let mut r9_n: usize = 0;"
                         let ghost ord0 = self.arbiters.order();
                         let ghost rx0 = self.cmd_rx;
+                        let ghost tx0_some = self.stop_tx.is_some();
 //@end
 }
 
